@@ -19,7 +19,7 @@ Repairs mirrored here (see /verif/.work/c04_fix_notes.md):
 2. `idxID` / `idxKey` are maintained on the overwrite path too (otherwise `RegisterTplID(id)`
    followed by `RegisterTpl(id, key)` never entered the key index).
 -/
-namespace DyntplV
+namespace DyntplV.Reg
 
 /-! ### Finite maps as association lists -/
 
@@ -224,9 +224,9 @@ def parsedSrcs : List SOp → List Nat
   | .parse s :: r => s :: parsedSrcs r
   | .reg .. :: r => parsedSrcs r
 
-end DyntplV
+end DyntplV.Reg
 
-namespace DyntplV
+namespace DyntplV.Reg
 
 /-! ### History-level specification of the lookups
 
@@ -280,9 +280,9 @@ def PairedOnly (hist : List Op) : Prop := pairedOnlyR hist.reverse = true
 
 instance (hist : List Op) : Decidable (PairedOnly hist) := by unfold PairedOnly; infer_instance
 
-end DyntplV
+end DyntplV.Reg
 
-namespace DyntplV
+namespace DyntplV.Reg
 
 /-- Go: `Write` / `WriteFallback` / `WriteByID` / the include node, reduced to their interaction with the
     registry: a failed lookup returns `ErrTplNotFound` before anything reaches the writer.  `render`
@@ -293,4 +293,4 @@ def writeWith (found : Option Slot) (render : Tree → Bytes) (w : Bytes) : Byte
   | none => (w, true)
   | some s => (w ++ render s.tree, false)
 
-end DyntplV
+end DyntplV.Reg
